@@ -54,7 +54,18 @@ def extra_parts(ctx):
     if ctx.only is not None and "send" not in ctx.only:
         return
     from props import qs_common as q
-    q.search(ctx, "C18", ("C18", "C03", "C04", "C14"), 40, 600)
+    # reports of genuine deliveries around and beyond the documented maximum (10000 bytes incl. delivery number and letter): the daemon acts
+    # on the truncated report - the failure notice quotes exactly the first 9998 bytes of the text, whatever the pipe chunking
+    long_texts = ["a" * 9990, "b" * 9997, "c" * 9998, "d" * 9999, "e" * 10001, "f" * 12000, "g" * 20000, "h" * 10239, "i" * 10240]
+    rc = ["u%d@rem.example" % i for i in range(len(long_texts))]
+    ctl = {"me": "me.example\n", "locals": "loc.example\n"}
+    fixed = [{"controls": ctl, "limits": [120, 120], "messages": [{"sender": "s@rem.example", "rcpts": rc, "body": "x\n"}],
+              "scripts": {"0:%d" % i: "D" for i in range(len(rc))}, "bscript": "K", "texts": long_texts, "tape": [], "actions": ["answer", "inject", "advance"],
+              "mode": {"kind": "none"}},
+             {"controls": dict(ctl, queuelifetime="0\n"), "limits": [120, 120], "messages": [{"sender": "s@rem.example", "rcpts": rc, "body": "x\n"}],
+              "scripts": {"0:%d" % i: "ZZ" for i in range(len(rc))}, "bscript": "K", "texts": long_texts, "tape": [], "actions": ["answer", "inject", "advance"],
+              "mode": {"kind": "none"}}]
+    q.search(ctx, "C18", ("C18", "C03", "C04", "C14"), 40, 600, fixed=fixed)
 
 
 TOOLS = {"shim": sandbox.SHIM, "standin": sandbox.STANDIN}
@@ -596,8 +607,9 @@ class SpawnRunner:
             os.chown(src, self.quid, -1)
             self.good[c] = sw["victim"]
             env["VSHIM_SWAPOPEN"] = "%s|%s|%s" % (prog, sw["victim"], src)
+        stuck = []
         try:
-            rc, out, err = sandbox.run_proc(argv, env, stdin=stream)
+            rc, out, err = sandbox.run_proc(argv, env, stdin=stream, on_timeout=lambda pid: stuck.append(sandbox.stuck_with_zombies(pid)))
         finally:
             if sw:
                 p_ = os.path.join(self.mess, sw["victim"])
@@ -616,6 +628,12 @@ class SpawnRunner:
             if len(s) > 5000 or len(r) > 5000 or len(m) > 5000:
                 cls.append("cmd_10k_field")
         if rc is None:
+            if stuck and stuck[0] > 0:
+                # not a matter of time: the spawner sleeps while %d of its children are dead and unreaped - no further SIGCHLD will ever come,
+                # their reports are never written and the spawner never ends
+                stats.case(scenario=sc, nontrivial=True, classes=sorted(set(cls)) + ["spawner_stuck_with_unreaped_children"])
+                return ("%s sleeps for ever with %d dead children it never reaped (their deliveries get no report): every well-formed command "
+                        "must be answered with exactly one report" % (prog, stuck[0]))
             stats.inconclusive += 1
             return None
         stats.case(scenario=sc, nontrivial=near, classes=sorted(set(cls)))
